@@ -561,6 +561,8 @@ func init() {
 		"sync/atomic.AddUint64":    atomicAdd,
 		"sync/atomic.AddInt64":     atomicAdd,
 		"strconv.Itoa":             strconvItoa,
+		"internal/abi.NoEscape":    func(in *Interp, st *State, fn *ssa.Function, a []Value, r ssa.Value, p token.Pos) (Value, bool) { return a[0], true },
+		"(*strings.Builder).copyCheck": func(in *Interp, st *State, fn *ssa.Function, a []Value, r ssa.Value, p token.Pos) (Value, bool) { return nil, true },
 		"math/bits.TrailingZeros64": tz64Summary,
 		"strconv.FormatInt":        nil,
 	}
